@@ -300,8 +300,8 @@ theorem parseOpts_rt (os : List TcpOpt) (hok : ∀ o ∈ os, o.OK) :
         have c30 : ¬ (optType o = 30) := st.tne.2.2
         have c2 : ¬ (A.length + 2 > (A ++ (optBytes o ++ (optsBytes r ++ T))).length) := by
           rw [hal]; have := st.len2; omega
-        have c3 : ¬ (A.length + (optBytes o).length > (A ++ (optBytes o ++ (optsBytes r ++ T))).length) := by
-          rw [hal]; omega
+        have c3 : ¬ (A.length + (optBytes o).length > hdrLen) := by
+          simp only [optsBytes, List.length_append] at hle; omega
         have c4 : ¬ ((optBytes o).length < 2) := by have := st.len2; omega
         simp only [c0, c1, c2, if_false, st.len, c3, c4, c30, st.unpack]
         rw [harr2, ← hlen', ihr]
